@@ -27,6 +27,7 @@ def _knobs(rng, *, conc=True):
         "symlink": rng.random() < 0.1,
         "gc": rng.choice([None, None, None, 0.02, 0.15]),
         "stall": rng.choice([None, None, 0.3]),
+        "stall_task": rng.choice([None, 0.01, 0.03, 0.06]) if conc else None,
     }
 
 
